@@ -478,7 +478,7 @@ theorem opt_reachable_from {i : Inst} (hwf : WF i) (hmno : i.maskNoOps = false) 
             exact ⟨j', hj', (inProc_of_running hinv hj' h1' h2' hs' (by omega)).1⟩
         obtain ⟨jp, hjp, hipp⟩ := hip
         have hmask0 : mask i s 0 = true := by
-          simp only [mask, if_true, noOpMask, hmno, Bool.false_eq_true, if_false, hd, Bool.not_false,
+          simp only [mask, if_true, noOpMask_eq, hmno, Bool.false_eq_true, if_false, hd, Bool.not_false,
             Bool.and_true, Bool.or_false]
           exact anyUpTo_iff.mpr ⟨jp, hjp, hipp⟩
         have hact0 : 0 < nAct i := by unfold nAct; split <;> omega
@@ -773,7 +773,7 @@ theorem nondelay_reachable_from {i : Inst} (hwf : WF i) (hmno : i.maskNoOps = tr
         obtain ⟨a, ha, hma⟩ := anyUpTo_iff.mp hany
         have ha0 : a ≠ 0 := by
           intro h0; subst h0
-          simp [mask, noOpMask, hmno, hd] at hma
+          simp [mask, noOpMask_eq, hmno, hd] at hma
         obtain ⟨hsel, ho'⟩ := sel_of_mask hwf hinv ha0 ha hma
         generalize (translate i s (a - 1)).1 = j at hsel ho'
         generalize (translate i s (a - 1)).2.2 = m at hsel
